@@ -36,7 +36,16 @@ def g_payload(rng, wf=True, kinds=None):
     pt = rng.choice(kinds or KNOWN_TYPES)
     d = {'ptype': pt}
     if pt == 33:
-        d.update(kind='sa', proposals=[g_proposal(rng, wf) for _ in range(rng.choice([1, 1, 2, 3]))])
+        props = [g_proposal(rng, wf) for _ in range(rng.choice([1, 1, 2, 3]))]
+        if rng.random() < 0.25:
+            # the same suite offered again (another number, another SPI, maybe another order): equal as `Proposal`s, distinct on the wire
+            import copy
+            again = copy.deepcopy(rng.choice(props))
+            again['num'] = rng.randrange(1, 250)
+            if rng.random() < 0.5 and isinstance(again.get('transforms'), list):
+                again['transforms'] = list(reversed(again['transforms']))
+            props.insert(rng.randrange(len(props) + 1), again)
+        d.update(kind='sa', proposals=props)
     elif pt == 34:
         d.update(kind='ke', group=rng.choice([14, 19, 21, rng.randrange(0, 65536)]), data=rng.rbytes(rng.randrange(0, 80)))
     elif pt in (35, 36):
